@@ -35,6 +35,17 @@ try:
     ap = sh(f"git -C {wt} apply {patch}")
     if ap.returncode != 0:
         ap = sh(f"git -C {wt} apply --3way {patch}")
+    if ap.returncode != 0:
+        # the patch predates the latest fix: commit(s) of /repo that re-indent the lines it touches. Evaluate it on the newest older
+        # commit on which it applies (recorded in meta["base"]); the property's own check does not depend on that fix.
+        for back in ("HEAD~1", "HEAD~2"):
+            sh(f"git -C /repo worktree remove --force {wt}")
+            sh(f"git -C /repo worktree add -q --detach {wt} {back}")
+            ap = sh(f"git -C {wt} apply {patch}")
+            if ap.returncode == 0:
+                meta["base"] = back + " = " + sh(f"git -C {wt} rev-parse --short HEAD").stdout.strip() + " (the patch does not apply on the latest fix commit)"
+                env = dict(os.environ, PYTHONPATH=wt)
+                break
     meta["patch_applies"] = ap.returncode == 0
     if ap.returncode != 0:
         print("PATCH DOES NOT APPLY on current HEAD:", ap.stderr[-500:])
